@@ -212,9 +212,52 @@ pub fn derive_oracle(reg: &PortableRegistry, spec: &SettingsSpec, out: &GenOut) 
     Ok((max_reach, compact_as_decisions))
 }
 
+/// Regression probe (seeded change C08b): CompactAs on a single-unsigned-field struct with an unused live
+/// parameter, with and without codec attributes; (C08f) a type reachable from a recursive root only through a
+/// type parameter.
+fn probe_compact_as_and_phantom_reach() -> Result<(), Failure> {
+    use crate::program::*;
+    let un = |t: Ty| FieldDef { name: None, ty: t, compact_attr: false, docs: vec![] };
+    let p = |n: &str| ParamDecl { name: n.into(), skipped: false, config: false, compactable: false, bitstore: false, bitorder: false };
+    let def = |name: &str, params: Vec<ParamDecl>, f: Fields| Def { path: vec!["krate".into(), name.into()], params, docs: vec![], body: Body::Struct(f), config_inner: None };
+    let prog = Program {
+        name_style: 0,
+        defs: vec![
+            def("Amount", vec![p("T")], Fields::Unnamed(vec![un(Ty::Prim(Prim::U128))])),
+            def("Unit", vec![], Fields::Unit),
+            def("Tagged", vec![p("U")], Fields::Unnamed(vec![un(Ty::Prim(Prim::U32)), un(Ty::Phantom(Box::new(Ty::Param(0))))])),
+            def("Root", vec![], Fields::Unnamed(vec![un(Ty::Def(0, vec![Ty::Prim(Prim::Bool)])), un(Ty::Def(2, vec![Ty::Def(1, vec![])]))])),
+        ],
+        roots: vec![Ty::Def(3, vec![])],
+    };
+    let low = crate::lower::lower(&prog);
+    for codec in [true, false] {
+        let mut spec = SettingsSpec::default();
+        spec.codec = codec;
+        spec.compact_as = Some(COMPACT_AS_PATH.into());
+        spec.global_derives = vec!["Debug".into()];
+        spec.specific = vec![PathReg { path: "krate::Root".into(), derives: vec!["Clone".into()], attrs: vec!["#[allow(dead_code)]".into()], recursive: true }];
+        let text = prog.to_text();
+        let out = match run_typegen(&low.registry, &spec) {
+            GenResult::Ok(o) => o,
+            _ => return Err(Failure::infra("probe registry does not generate")),
+        };
+        derive_oracle(&low.registry, &spec, &out)
+            .map_err(|m| Failure::new(m).sig("regress:compact-as-and-phantom-reach").with(json!({"program": text, "settings": spec.to_json(), "tokens": out.tokens})))?;
+    }
+    Ok(())
+}
+
 impl Property for C08 {
     fn id(&self) -> &'static str {
         "C08"
+    }
+    fn probes(&self) -> Vec<Probe> {
+        vec![Probe {
+            signature: "regress:compact-as-and-phantom-reach",
+            what: "Amount<T>(u128) with unused T and CompactAs configured, codec attributes on and off; Tagged<Unit> reachable from a recursive root through its phantom parameter only",
+            run: Box::new(probe_compact_as_and_phantom_reach),
+        }]
     }
     fn rule(&self) -> String {
         "tape -> program (cyclic graphs; tuples, arrays, compact, maps, generic arguments between types; several overlapping roots) -> registry \
